@@ -69,7 +69,10 @@ def inline_text(rng, n=None):
     return ''.join(out)
 
 
-def soup_doc(rng, maxlines=12):
+DEF_LINE = __import__('re').compile(r"^\\?(\{[\w-]+\??\}\s*=|\|[\w-]+\|\s*=|/.+/[igm]*\s*=|\S{1,2}\s*=\s*'|\.\w+\s*=\s*')")
+
+
+def soup_doc(rng, maxlines=12, no_lt=False, no_defs=False, closed=False, no_list_start=False, lf_only=False):
     """Token soup document: lines drawn from whole-line forms or inline token runs."""
     n = rng.randint(1, maxlines)
     lines = []
@@ -83,9 +86,21 @@ def soup_doc(rng, maxlines=12):
             l = inline_text(rng)
         else:
             l = rng.choice(['- ', '. ', '  ', '> ', '# ', 't:: ', '']) + inline_text(rng)
+        if no_defs and DEF_LINE.match(l) and not l.lstrip('\\').startswith('{'):
+            l = 'plain ' + str(len(lines))   # macro definitions stay (their values are made tag-free by no_lt)
+        if no_lt:
+            l = l.replace('<', '(')
         lines.append(l)
-    term = rng.choice(TERMS) if rng.random() < 0.15 else '\n'
-    return term.join(lines)
+    if no_list_start:
+        lines.insert(0, 'Start paragraph.')
+        lines.insert(1, '')
+    if closed:
+        lines += ['', 'Closing paragraph.']
+    term = rng.choice(TERMS) if (rng.random() < 0.15 and not lf_only) else '\n'
+    doc = term.join(lines)
+    if lf_only:
+        doc = doc.replace('\r', '')
+    return doc
 
 
 MODES = list(range(16))
@@ -145,4 +160,82 @@ def saved_corpus(name):
                 line = line.strip()
                 if line:
                     out.append(json.loads(line))
+    return out
+
+
+DEGENERATE = ["/x*/='y'", "/(a)|b/='[$1]'", "/(/='x'", "/[/='x'", "/a{2,1}/='x'", "/(.*)/='$$1'", "/.*/='$9'", "/./='$1'",
+              "/(?P<n>a)/='x'", "/a++/='x'", "/\\/='x'", "* = '|'", "= = '<u>|</u>'", "`` = '<c>||</c>'", "\\ = '<b>|</b>'",
+              "~ = '<s>|</s>'", "|paragraph|='-spans -specials'", "|paragraph|='<div>|</div> +container'", "|code|='+macros +spans'",
+              "|comment|='-skip'", "|html|='+container'", "|indented|='+skip'", "|division|='-container'",
+              "{m}='$1 $2 $$3 $10'", "{m}='$99999999999999999999'", "{m}='{m|$1}'", "{a}='{b}'", "{b}='{a}'",
+              "{m=[}", "{m=(}", "{m!a{4294967296\\}}", "{m|a|b|c|d|e}", "{m|$1|\\$2}", ".+container", ".+macros +spans",
+              ".-specials -spans -macros"]
+
+
+def degenerate_history(rng):
+    """author-trusted documents that install ill-formed or degenerate definitions, then ordinary text"""
+    calls = []
+    pre = [rng.choice(DEGENERATE) for _ in range(rng.randint(1, 4))]
+    calls.append({'src': '\n'.join(pre) + '\n\n' + soup_doc(rng, 4), 'safeMode': 0, 'reset': True, 'cb': rng.random() < 0.8})
+    for _ in range(rng.randint(0, 2)):
+        c = rand_opts(rng)
+        c['src'] = soup_doc(rng, 6)
+        calls.append(c)
+    return {'kind': 'H', 'calls': calls, 'state': True}
+
+
+def repeated_elements(quick):
+    """thousands of repeated elements in one paragraph; nesting to depth 50"""
+    out = []
+    n = 300 if quick else 3000
+    for unit in ['http://a.b/c ', '*em* ', '[l](u) ', '&amp; ', '<b> ', '`c` ', '\\*esc* ', 'x_y ', '{--} ', '<image:a> ']:
+        for mode in (0, 1):
+            out.append({'kind': 'H', 'state': False,
+                        'calls': [{'src': unit * n, 'safeMode': mode, 'reset': True, 'cb': True}]})
+    deep = ''
+    for d in range(2, 52):
+        deep += '.' * d + '\n'
+    deep += 'inner\n'
+    for d in range(51, 1, -1):
+        deep += '.' * d + '\n'
+    out.append({'kind': 'H', 'state': False, 'calls': [{'src': deep, 'safeMode': 0, 'reset': True, 'cb': True}]})
+    li = ''.join('%s item\n' % ('*' * (1 + d % 4)) for d in range(40))
+    out.append({'kind': 'H', 'state': False, 'calls': [{'src': li, 'reset': True, 'cb': True}]})
+    return out
+
+
+INJECTIONS = ['[x](http://a"onmouseover="alert(1))', '<image:a"b|c"d>', '<image:a"onerror="x>', '![a"b](c"d)', '<j@x"y.com>',
+              '<http://a.b"c|d>', '^[x](u"v)', '<a"b>', 'http://a.b/"c', '."color:red" onclick="x"\npara', '.cls"x\npara',
+              '.#id"x\npara', '.[onclick="x"]\npara', '.-specials\n<b>\n', "{m}='<script>x</script>'\n{m}", "{m}='<b>'\n<div>{m}</div>",
+              '<div>\n{m}', '<!-- {m} -->', '.+macros\n<div>{m}</div>', '<<#a"b>>', '# h "q"', '# <b> h', 'x::"q"', '&amp;"', '&#x;<',
+              "|paragraph|='<x>|</x>'\npara", "= = '<u>|</u>'\n=x=", "/a/='<i>'\na", '.safeMode=\'0\'\n<b>', '.htmlReplacement=\'<u>\'\n<b>',
+              '``\n<b>\n``', '  <b>', '> <b>', '- <b>', 'a::<b>', '..\n<b>\n..', '.-container\n..\n<b>\n..', '.-spans\n> <b>',
+              '.-spans\n- <b>', '.+skip\n<b>', '\\<b>', '<b', '<b>>', '<<b>', '&lt;', '<!--x-->', '<!-- a > b -->', '<B CLASS="x">']
+
+
+def injection_cases(modes, repl):
+    out = []
+    for inj in INJECTIONS:
+        for m in modes:
+            out.append({'kind': 'H', 'state': False,
+                        'calls': [{'src': "{m}='<script>x</script>'\n\n" + inj + '\n\nnext *para*', 'safeMode': m, 'reset': True,
+                                   'htmlReplacement': repl, 'cb': True}]})
+    return out
+
+
+def reset_adversaries():
+    """histories that redefine every kind of definition / leave things pending, then a reset call"""
+    pres = ["* = '<b>|</b>'\n= = '<u>|</u>'", "/foo/='bar'\n/\\\\?\\.{3}/='E'", "|paragraph|='<div>|</div> -spans'\n|code|='-specials'",
+            "{m}='v'\n{--header-ids}='1'", ".cls #id1 \"c:d\" [a=b] -spans", ".+skip", ".-macros", "# Title\n.#title\npara",
+            "..\nunterminated", "{m}='open", "- item\n\n.x", ".safeMode='5'", ".htmlReplacement='Q'", "``\ncode", "/*\ncomment"]
+    probes = ["*a* =b= foo ... {m} {--header-ids}\n\n# Title\n\n``\n<c>\n``\n\n<b>raw</b>\n\npara", "- a\n- b\n\n.. k\nd\n..",
+              "{m}", "# Title", "*x*\n\nsecond", "<div>\n\nnext"]
+    out = []
+    for p in pres:
+        for q in probes:
+            for mode in (None, 0, 1):
+                last = {'src': q, 'reset': True, 'safeMode': mode, 'cb': True}
+                main = {'kind': 'H', 'state': True, 'calls': [{'src': p, 'safeMode': 0, 'cb': True}, last]}
+                main['variants'] = [{'kind': 'H', 'state': True, 'calls': [last]}]
+                out.append(main)
     return out
